@@ -648,18 +648,50 @@ Theorem guard_false_noop cfg st line words :
   run_line cfg st line = Done st.
 Proof. intros Ht Hb. apply demand_met_run. eapply DM_guard; eauto. Qed.
 
-(* neg_flips_exec: for a foreground exec, "!" turns success into failure and failure into
-   success, with the same effects on the state *)
+(* neg_flips_exec: for a foreground exec that testscript does not stop itself, "!" turns
+   success into failure and failure into success, with the same effects on the state *)
 Theorem neg_flips_exec cfg args st s :
-  fg_args args ->
+  fg_args args -> exec_times_out cfg args st = false ->
   (cmd_exec cfg true args st = Done s <-> cmd_exec cfg false args st = Failed s)
   /\ (cmd_exec cfg true args st = Failed s <-> cmd_exec cfg false args st = Done s).
 Proof.
-  intros [Hne Hbg]. unfold cmd_exec. destruct args as [|prog rest]; [congruence|].
-  rewrite Hbg. destruct (can_start cfg st prog).
-  - destruct (negb (N.eqb (h_code (helper_run rest (s_in st) (s_env st) (s_cd st) (s_fs st))) 0));
+  intros [Hne Hbg] Hto. unfold cmd_exec. destruct args as [|prog rest]; [congruence|].
+  rewrite Hbg. unfold exec_times_out in Hto. destruct (can_start cfg st prog).
+  - simpl in Hto.
+    destruct (fg_end cfg (helper_run rest (s_in st) (s_env st) (s_cd st) (s_fs st))); [| |discriminate];
       simpl; split; split; intros H; inversion H; reflexivity.
   - split; split; intros H; inversion H; reflexivity.
+Qed.
+
+(* neg_does_not_excuse_timeout: a foreground command that testscript stops because the context
+   of the run is done fails the line under BOTH polarities, with the same state *)
+Theorem neg_does_not_excuse_timeout cfg args st :
+  fg_args args -> exec_times_out cfg args st = true ->
+  exists s, forall neg, cmd_exec cfg neg args st = Failed s.
+Proof.
+  intros [Hne Hbg] Hto. unfold cmd_exec. destruct args as [|prog rest]; [congruence|].
+  rewrite Hbg. unfold exec_times_out in Hto. apply andb_true_iff in Hto. destruct Hto as [Hc He].
+  rewrite Hc.
+  destruct (fg_end cfg (helper_run rest (s_in st) (s_env st) (s_cd st) (s_fs st))) eqn:E; try discriminate.
+  eexists. intros neg. simpl. reflexivity.
+Qed.
+
+(* the deadline reached while a sleeping helper runs in the foreground *)
+Lemma sleeper_times_out cfg prog rest st :
+  c_deadline cfg = true -> can_start cfg st prog = true ->
+  h_sleeper (helper_run rest (s_in st) (s_env st) (s_cd st) (s_fs st)) = true ->
+  exec_times_out cfg (prog :: rest) st = true.
+Proof.
+  intros Hd Hc Hs. unfold exec_times_out, fg_end. rewrite Hc, Hd, Hs. destruct (c_cancelled cfg); reflexivity.
+Qed.
+
+(* without a deadline and with a live context nothing is ever stopped by testscript *)
+Lemma no_deadline_no_timeout cfg args st :
+  c_deadline cfg = false -> c_cancelled cfg = false -> exec_times_out cfg args st = false.
+Proof.
+  intros Hd Hc. unfold exec_times_out, fg_end. destruct args as [|prog rest]; [reflexivity|].
+  rewrite Hd, Hc. simpl. destruct (can_start cfg st prog); [|reflexivity]. simpl.
+  destruct (N.eqb _ 0); reflexivity.
 Qed.
 
 Lemma exec_is_cmd_exec cfg neg args st :
@@ -743,7 +775,7 @@ Definition cfg0 (coe : bool) : config :=
   {| c_continue := coe; c_explicit_exec := false; c_unique := false; c_update := false;
      c_host_conds := [(b "linux", true); (b "windows", false)];
      c_custom_cond := None; c_cmds := [(b "probe", CProbe)]; c_main_cmds := [b "tshelper"];
-     c_helper := b "tshelper"; c_helper_dir := b "/h"; c_watch := [b "X"] |}.
+     c_helper := b "tshelper"; c_helper_dir := b "/h"; c_watch := [b "X"]; c_deadline := false; c_cancelled := false |}.
 Definition env0 : list (bytes * bytes) := [(b "WORK", b "/w"); (b "PATH", b "/h")].
 Definition run (coe : bool) (ls : list string) : run_result :=
   run_file (cfg0 coe) (b "/w") env0 (script ls).
@@ -826,9 +858,10 @@ Proof. intros He. simpl. rewrite He. reflexivity. Qed.
 (* `exec name` itself is never affected by the flag *)
 Theorem explicit_exec_irrelevant_for_exec cfg cfg' neg args st :
   (forall prog, can_start cfg st prog = can_start cfg' st prog) ->
+  c_deadline cfg = c_deadline cfg' -> c_cancelled cfg = c_cancelled cfg' -> c_continue cfg = c_continue cfg' ->
   cmd_exec cfg neg args st = cmd_exec cfg' neg args st.
 Proof.
-  intros H. unfold cmd_exec. destruct args as [|prog rest]; [reflexivity|].
+  intros H Hd Hc Hk. unfold cmd_exec, fg_end, fg_racy. rewrite Hd, Hc, Hk. destruct args as [|prog rest]; [reflexivity|].
   destruct (bg_spec _); [destruct rest; [reflexivity|]; destruct (find_bg _ _); [reflexivity|]|]; rewrite H; reflexivity.
 Qed.
 
@@ -877,7 +910,7 @@ Import Examples.
 Definition cfgp (ree uniq : bool) : config :=
   {| c_continue := true; c_explicit_exec := ree; c_unique := uniq; c_update := false;
      c_host_conds := []; c_custom_cond := None; c_cmds := []; c_main_cmds := [b "tshelper"];
-     c_helper := b "tshelper"; c_helper_dir := b "/h"; c_watch := [] |}.
+     c_helper := b "tshelper"; c_helper_dir := b "/h"; c_watch := []; c_deadline := false; c_cancelled := false |}.
 Definition dup := script ["exists a.txt"; "-- a.txt --"; "one"; "-- a.txt --"; "two"].
 (* a duplicate entry name: setup fails (line 0) with the flag, even under ContinueOnError;
    without it the later entry wins *)
@@ -924,3 +957,161 @@ Proof.
     destruct (mem_bytes name script_cmd_names) eqn:E2; [apply mem_bytes_In in E2; tauto|].
     rewrite H3. reflexivity.
 Qed.
+
+(* ---- deadlines: a command that testscript itself stops is a failure under both polarities *)
+
+(* a line whose command is a foreground exec that times out does not meet its demand, "!" or not *)
+Theorem timeout_line_unmet cfg st line neg args :
+  reaches cfg st line neg (CBuiltin exec_name) args -> fg_args args ->
+  exec_times_out cfg args st = true -> unmet cfg st line.
+Proof.
+  intros Hr Hfg Hto. apply line_failed_iff. rewrite (run_line_reaches _ _ _ _ _ _ Hr).
+  change (cmd_sem cfg (CBuiltin exec_name) neg args st) with (builtin_sem cfg exec_name neg args st).
+  unfold builtin_sem. destruct (neg && mem_bytes exec_name neg_rejecting_cmds); [eexists; reflexivity|].
+  change (exists st', cmd_exec cfg neg args st = Failed st').
+  destruct (neg_does_not_excuse_timeout cfg args st Hfg Hto) as [s Hs]. exists s. apply Hs.
+Qed.
+
+(* the same for a command registered through testscript.Main and used without `exec` *)
+Theorem timeout_main_line_unmet cfg st line neg name args :
+  reaches cfg st line neg (CMain name) args -> fg_args (name :: args) ->
+  exec_times_out cfg (name :: args) st = true -> unmet cfg st line.
+Proof.
+  intros Hr Hfg Hto. apply line_failed_iff. rewrite (run_line_reaches _ _ _ _ _ _ Hr). simpl.
+  destruct (c_explicit_exec cfg); [eexists; reflexivity|].
+  destruct (neg_does_not_excuse_timeout cfg (name :: args) st Hfg Hto) as [s Hs]. exists s. apply Hs.
+Qed.
+
+(* hence the run is reported as failed at that very line, and nothing behind it runs *)
+Theorem timeout_fails_run cfg text st0 pre l post st1 neg args :
+  c_continue cfg = false ->
+  script_lines text = pre ++ l :: post -> lines_met cfg pre 0 false st0 st1 -> is_comment l = false ->
+  reaches cfg (at_line (S (length pre)) false st1) l neg (CBuiltin exec_name) args -> fg_args args ->
+  exec_times_out cfg args (at_line (S (length pre)) false st1) = true ->
+  r_verdict (run_script cfg text st0) = Fail (S (length pre))
+  /\ r_fail_lines (run_script cfg text st0) = [S (length pre)].
+Proof.
+  intros Hc Hsplit Hmet Hcom Hr Hfg Hto.
+  pose proof (timeout_line_unmet _ _ _ _ _ Hr Hfg Hto) as Hun.
+  assert (run_script cfg text st0
+          = {| r_verdict := Fail (S (length pre));
+               r_final := line_effects cfg (at_line (S (length pre)) false st1) l;
+               r_fail_lines := [S (length pre)] |}) as ->.
+  { apply verdict_fail_first; [exact Hc|]. exists pre, l, post, st1.
+    split; [exact Hsplit|]. split; [reflexivity|]. split; [exact Hmet|]. split; [exact Hcom|].
+    split; [exact Hun|reflexivity]. }
+  split; reflexivity.
+Qed.
+
+(* `wait` blocked on a command that only the deadline ends fails, whatever polarity that
+   command (or any other) was started with *)
+Theorem wait_timeout_fails cfg st :
+  wait_times_out cfg (s_bg st) = true -> cmd_wait cfg [] st = Failed (timed_out_state cfg st).
+Proof. intros H. unfold cmd_wait. rewrite H. reflexivity. Qed.
+
+Theorem wait_named_timeout_fails cfg st n bg :
+  find_bg (s_bg st) n = Some bg -> c_deadline cfg = true -> running_sleeper bg = true ->
+  cmd_wait cfg [n] st = Failed (timed_out_state cfg st).
+Proof.
+  intros Hf Hd Hs. unfold cmd_wait, wait_times_out. rewrite Hf, Hd. simpl. rewrite Hs. reflexivity.
+Qed.
+
+Lemma wait_no_deadline cfg args st :
+  c_deadline cfg = false ->
+  cmd_wait cfg args st = match args with [] => wait_all true st | [n] => wait_one n st | _ => Failed st end.
+Proof.
+  intros Hd. unfold cmd_wait, wait_times_out. rewrite Hd. simpl.
+  destruct args as [|a [|b r]]; try reflexivity. destruct (find_bg _ _); reflexivity.
+Qed.
+
+From Coq Require Import Permutation.
+
+(* ---- several scripts in one RunT call, subtests run one after the other: the context is
+   cancelled by the last subtest only, so every verdict is the verdict of that script alone *)
+
+Lemma cfg_ctx_same cfg : c_cancelled cfg = false -> cfg_ctx cfg false = cfg.
+Proof. intros H. destruct cfg. simpl in *. subst. reflexivity. Qed.
+
+Lemma seq_verdicts_live cfg : c_cancelled cfg = false ->
+  forall jobs refc, length jobs <= refc -> seq_verdicts cfg refc false jobs = batch_verdicts cfg jobs.
+Proof.
+  intros Hc. induction jobs as [|j r IH]; intros refc Hl; [reflexivity|].
+  simpl in *. rewrite (cfg_ctx_same cfg Hc). f_equal.
+  destruct (Nat.eqb (pred refc) 0) eqn:E.
+  - apply Nat.eqb_eq in E. destruct r as [|j2 r2]; [reflexivity|]. simpl in Hl. lia.
+  - apply IH. lia.
+Qed.
+
+Theorem verdict_independent_of_batch cfg jobs :
+  c_cancelled cfg = false -> runT_seq cfg jobs = batch_verdicts cfg jobs.
+Proof. intros Hc. apply seq_verdicts_live; [exact Hc|]. unfold runT_seq. lia. Qed.
+
+(* position by position: what stands before or behind a script in the batch is irrelevant *)
+Theorem verdict_independent_of_batch_nth cfg pre j post :
+  c_cancelled cfg = false ->
+  nth_error (runT_seq cfg (pre ++ j :: post)) (length pre)
+  = Some (r_verdict (run_file cfg (j_work j) (j_env j) (j_file j))).
+Proof.
+  intros Hc. rewrite verdict_independent_of_batch by exact Hc. unfold batch_verdicts.
+  rewrite map_app. rewrite nth_error_app2; rewrite map_length; [|lia].
+  rewrite Nat.sub_diag. reflexivity.
+Qed.
+
+(* a T that runs the subtests in another order (in parallel: in any order of completion) *)
+Theorem verdict_independent_of_order cfg jobs jobs' :
+  c_cancelled cfg = false -> Permutation jobs jobs' ->
+  Permutation (runT_seq cfg jobs) (runT_seq cfg jobs').
+Proof.
+  intros Hc Hp. rewrite !verdict_independent_of_batch by exact Hc. unfold batch_verdicts.
+  apply Permutation_map. exact Hp.
+Qed.
+
+Module DeadlineExamples.
+Import String.
+Local Open Scope string_scope.
+Local Open Scope list_scope.
+Import Examples.
+Definition cfgd (coe dl : bool) : config :=
+  {| c_continue := coe; c_explicit_exec := false; c_unique := false; c_update := false;
+     c_host_conds := []; c_custom_cond := None; c_cmds := []; c_main_cmds := [b "tshelper"];
+     c_helper := b "tshelper"; c_helper_dir := b "/h"; c_watch := []; c_deadline := dl; c_cancelled := false |}.
+Definition rund (dl : bool) (ls : list string) : run_result := run_file (cfgd false dl) (b "/w") env0 (script ls).
+
+(* a hung command under "!": stopped by the deadline, the run fails at that line and the
+   marker behind it is never made; the same command failing by itself satisfies "!" *)
+Definition s_neg_sleep := ["mkdir before"; "! exec tshelper sleep"; "mkdir after"].
+Example ex_neg_timeout :
+  r_verdict (rund true s_neg_sleep) = Fail 2 /\ r_fail_lines (rund true s_neg_sleep) = [2]
+  /\ stat (s_fs (r_final (rund true s_neg_sleep))) (b "/w/after") = None
+  /\ r_verdict (rund true ["! exec tshelper exit 3"; "mkdir after"]) = Pass.
+Proof. vm_compute. repeat split; reflexivity. Qed.
+Example ex_plain_timeout : r_verdict (rund true ["exec tshelper sleep"]) = Fail 1.
+Proof. vm_compute. reflexivity. Qed.
+(* the hypotheses of neg_does_not_excuse_timeout are satisfiable *)
+Definition st_sleep : state := fst (setup (cfgd false true) (b "/w") env0 (parse (script s_neg_sleep))).
+Example ex_times_out :
+  fg_args [b "tshelper"; b "sleep"] /\ exec_times_out (cfgd false true) [b "tshelper"; b "sleep"] st_sleep = true
+  /\ exec_times_out (cfgd false false) [b "tshelper"; b "sleep"] st_sleep = false
+  /\ exec_times_out (cfgd false true) [b "tshelper"; b "exit"; b "3"] st_sleep = false.
+Proof. vm_compute. repeat split; congruence. Qed.
+(* background commands: `wait` fails at its own line for both polarities, named or not *)
+Example ex_wait_timeout :
+  r_verdict (rund true ["exec tshelper sleep &"; "mkdir m"; "wait"; "mkdir after"]) = Fail 3
+  /\ r_verdict (rund true ["! exec tshelper sleep &"; "wait"]) = Fail 2
+  /\ r_verdict (rund true ["! exec tshelper sleep &a&"; "exec tshelper echo x &b&"; "wait b"; "wait a"]) = Fail 4
+  /\ r_verdict (rund true ["! exec tshelper sleep &"; "kill"; "wait"]) = Pass
+  /\ r_verdict (rund true ["exec tshelper sleep &"]) = Pass.
+Proof. vm_compute. repeat split; reflexivity. Qed.
+
+(* batches: the count starts at the number of scripts ... *)
+Definition job_of (ls : list string) : job := {| j_work := b "/w"; j_env := env0; j_file := script ls |}.
+Definition two := [job_of ["exec tshelper echo one"]; job_of ["exec tshelper echo two"; "stdout two"]].
+Example ex_batch : runT_seq (cfgd false false) two = [Pass; Pass].
+Proof. vm_compute. reflexivity. Qed.
+(* ... started any lower, the first script to end cancels the context under the second one,
+   whose exec then fails although every line of it meets its demand when it runs alone *)
+Example ex_batch_low_count :
+  seq_verdicts (cfgd false false) 1 false two = [Pass; Fail 1]
+  /\ batch_verdicts (cfgd false false) two = [Pass; Pass].
+Proof. vm_compute. split; reflexivity. Qed.
+End DeadlineExamples.
